@@ -308,6 +308,19 @@ Section Multi.
     i_pos : 0 < blen P
   }.
 
+  (* where the newest trailer comes from: a dictionary written in some style and read back; outside the bookkeeping keys, Size and
+     Prev it holds the document's trailer entries *)
+  Definition tr_excl : list bytes :=
+    [bs "Type"; bs "W"; bs "Index"; bs "Length"; bs "Filter"; bs "DecodeParms"; bs "Size"; bs "Prev"].
+  Definition trailer_src (t0 : dict) : Prop :=
+    dict_wf t0 /\
+    exists d y, spell_wf (ODict d) y /\
+      forall k, ~ In k tr_excl -> dict_get t0 k = dict_get (denote_dict d (dict_sts y)) k /\ dict_get d k = dict_get (a_trailer a) k.
+  Lemma excl_beq k0 k : ~ In k tr_excl -> In k0 tr_excl -> bytes_eqb k0 k = false.
+  Proof. intros H1 H2. destruct (bytes_eqb k0 k) eqn:E; [|reflexivity]. apply bytes_eqb_eq in E. subst. contradiction. Qed.
+  Lemma excl_beq' k k0 : ~ In k tr_excl -> In k0 tr_excl -> bytes_eqb k k0 = false.
+  Proof. intros H1 H2. destruct (bytes_eqb k k0) eqn:E; [|reflexivity]. apply bytes_eqb_eq in E. subst. contradiction. Qed.
+
   (* BEGIN-PARTS (two instances of one text: table-format part, stream-format part) *)
 
   Section PartT.
@@ -595,6 +608,14 @@ Section Multi.
     Lemma Hxtp_okT tp : In tp xtp -> top_ok tp.
     Proof. rewrite xtp_eqT. intros []. Qed.
 
+    Lemma pt_srcT : trailer_src p_t.
+    Proof.
+      split; [exact pt_wfT|]. exists p_trd, (t_trailer t). split; [apply (Htr sz prev sz_leT HprevT)|].
+      intros k Hk. split; [reflexivity|]. unfold p_trd. rewrite dget_app. destruct (dict_get (a_trailer a) k); [reflexivity|].
+      cbn [app dict_get]. rewrite (excl_beq RefWriter.K_Size k Hk) by (cbn; tauto).
+      destruct prev; cbn [p_prev dict_get]; [rewrite (excl_beq K_PrevW k Hk) by (cbn; tauto)|]; reflexivity.
+    Qed.
+
     (* ---------- generic from here: the invariant after this part ---------- *)
     Lemma xget_p_casesT n :
       (In n (keys_of secs) /\ xget (x_entries p_x) n = entry_meaning (en n)) \/ (~ In n (keys_of secs) /\ xget (x_entries p_x) n = None).
@@ -705,9 +726,10 @@ Section Multi.
     Lemma part_resultT :
       Inv rest (P ++ T) chain' (p_known p pos known maxnum) (sz - 1) (xtp ++ xt) /\ C07Bytes.xincr 0 (x_entries p_x) /\
       (exists front, P ++ T = front ++ startxref_text (with_part st p last) xpos /\ xpos <= blen front) /\
-      dict_get (dict_swap_remove p_t K_Prev) K_XRefStm = None /\ dict_has (dict_swap_remove p_t K_Prev) K_Encrypt = false.
+      dict_get (dict_swap_remove p_t K_Prev) K_XRefStm = None /\ dict_has (dict_swap_remove p_t K_Prev) K_Encrypt = false /\
+      trailer_src p_t.
     Proof.
-      split; [exact inv_stepT|]. split; [exact px_sortedT|]. split; [exact PT_frontT|]. split.
+      split; [exact inv_stepT|]. split; [exact px_sortedT|]. split; [exact PT_frontT|]. split; [|split; [|exact pt_srcT]].
       - rewrite dict_get_swap_remove_other; [exact Hpt_stmT|exact pt_wfT|intro E; discriminate E].
       - unfold dict_has. rewrite dict_get_swap_remove_other; [rewrite pt_encT; reflexivity|exact pt_wfT|intro E; discriminate E].
     Qed.
@@ -968,6 +990,17 @@ Section Multi.
       rewrite xtp_eqS. intros [<-|[]]. destruct (xq_all' a x en secs sz (p_prev prev) dec can xq_h) as [F1 _]. exact F1.
     Qed.
 
+    Lemma pt_srcS : trailer_src (xq_t a x en secs sz (p_prev prev)).
+    Proof.
+      split; [exact pt_wfS|]. exists (xq_d a x en secs sz (p_prev prev)), (i_obj (xs_istyle x)).
+      pose proof xq_h as Hh. destruct Hh as [_ [_ [_ [_ [_ [_ [[Hw _] _]]]]]]]. split; [exact Hw|].
+      destruct (xq_all' a x en secs sz (p_prev prev) dec can xq_h) as [_ [_ [_ [_ [_ [_ [F7 F8]]]]]]].
+      intros k Hk. split.
+      - apply F7. rewrite (excl_beq' k Xref.K_Index Hk), (excl_beq' k Xref.K_W Hk), (excl_beq' k Obj.K_Length Hk) by (cbn; tauto). reflexivity.
+      - rewrite F8 by (apply (fun k0 H => excl_beq k0 k Hk H); cbn; tauto). destruct (dict_get (a_trailer a) k); [reflexivity|].
+        destruct prev; cbn [p_prev dict_get]; [rewrite (excl_beq K_PrevW k Hk) by (cbn; tauto)|]; reflexivity.
+    Qed.
+
     (* ---------- generic from here: the invariant after this part ---------- *)
     Lemma xget_p_casesS n :
       (In n (keys_of secs) /\ xget (x_entries (xq_x0 en secs sz)) n = entry_meaning (en n)) \/ (~ In n (keys_of secs) /\ xget (x_entries (xq_x0 en secs sz)) n = None).
@@ -1078,9 +1111,10 @@ Section Multi.
     Lemma part_resultS :
       Inv rest (P ++ T) chain' (p_known p pos known maxnum) (sz - 1) (xtp ++ xt) /\ C07Bytes.xincr 0 (x_entries (xq_x0 en secs sz)) /\
       (exists front, P ++ T = front ++ startxref_text (with_part st p last) xpos /\ xpos <= blen front) /\
-      dict_get (dict_swap_remove (xq_t a x en secs sz (p_prev prev)) K_Prev) K_XRefStm = None /\ dict_has (dict_swap_remove (xq_t a x en secs sz (p_prev prev)) K_Prev) K_Encrypt = false.
+      dict_get (dict_swap_remove (xq_t a x en secs sz (p_prev prev)) K_Prev) K_XRefStm = None /\ dict_has (dict_swap_remove (xq_t a x en secs sz (p_prev prev)) K_Prev) K_Encrypt = false /\
+      trailer_src (xq_t a x en secs sz (p_prev prev)).
     Proof.
-      split; [exact inv_stepS|]. split; [exact px_sortedS|]. split; [exact PT_frontS|]. split.
+      split; [exact inv_stepS|]. split; [exact px_sortedS|]. split; [exact PT_frontS|]. split; [|split; [|exact pt_srcS]].
       - rewrite dict_get_swap_remove_other; [exact Hpt_stmS|exact pt_wfS|intro E; discriminate E].
       - unfold dict_has. rewrite dict_get_swap_remove_other; [rewrite pt_encS; reflexivity|exact pt_wfS|intro E; discriminate E].
     Qed.
@@ -1105,7 +1139,8 @@ Section Multi.
          chainF = (xs, (x0, t0)) :: cr /\ C07Bytes.xincr 0 (x_entries x0) /\ last_part parts = Some lastp /\
          P ++ r = front ++ startxref_text (with_part st lastp true) xs /\ xs <= blen front /\
          match parts with p :: _ => p_xpos p (blen P) <= xs | [] => True end /\
-         dict_get (dict_swap_remove t0 K_Prev) K_XRefStm = None /\ dict_has (dict_swap_remove t0 K_Prev) K_Encrypt = false).
+         dict_get (dict_swap_remove t0 K_Prev) K_XRefStm = None /\ dict_has (dict_swap_remove t0 K_Prev) K_Encrypt = false /\
+         trailer_src t0).
   Proof.
     induction parts as [|p rest IH]; intros P chain known maxnum xt r Hdom Hinv Hw HU.
     - cbn [write_parts] in Hw. inversion Hw; subst r. rewrite app_nil_r. exists chain, known, maxnum, xt. split; [exact Hinv|]. intro K. contradiction.
@@ -1133,16 +1168,17 @@ Section Multi.
                  C07Bytes.xincr 0 (x_entries px) /\
                  (exists front, P ++ T = front ++ startxref_text (with_part st p (p_last rest)) (p_xpos p (blen P)) /\
                                 p_xpos p (blen P) <= blen front) /\
-                 dict_get (dict_swap_remove pt K_Prev) K_XRefStm = None /\ dict_has (dict_swap_remove pt K_Prev) K_Encrypt = false).
+                 dict_get (dict_swap_remove pt K_Prev) K_XRefStm = None /\ dict_has (dict_swap_remove pt K_Prev) K_Encrypt = false /\
+                 trailer_src pt).
       { destruct (mp_xref p) as [t|x] eqn:Hfmt.
         - eexists _, _, _. exact (part_resultT p t P chain known maxnum rest xt Hfmt Hhn Hinv Hex Hold Hok HU1).
         - eexists _, _, _. exact (part_resultS p x P chain known maxnum rest xt Hfmt Hhn Hinv Hex Hold Hok HU1). }
-      destruct Hres as [px [pt [xtp [Hinv' [Hsort [[front [F1 F2]] [Hstm Henc]]]]]]].
+      destruct Hres as [px [pt [xtp [Hinv' [Hsort [[front [F1 F2]] [Hstm [Henc Hsrc]]]]]]]].
       destruct rest as [|p2 rest2].
       + cbn [write_parts] in Hr. inversion Hr; subst r'. rewrite app_nil_r.
         eexists _, _, _, _. split; [exact Hinv'|]. intros _.
         exists (p_xpos p (blen P)), px, pt, chain, p, front. split; [reflexivity|]. split; [exact Hsort|]. split; [reflexivity|].
-        split; [exact F1|]. split; [exact F2|]. split; [lia|]. split; [exact Hstm|exact Henc].
+        split; [exact F1|]. split; [exact F2|]. split; [lia|]. split; [exact Hstm|split; [exact Henc|exact Hsrc]].
       + assert (Epos : blen P + N.of_nat (length T) = blen (P ++ T)) by (unfold blen; rewrite app_length; lia).
         rewrite Epos in Hr, Hdom'.
         destruct (IH (P ++ T) ((p_xpos p (blen P), (px, pt)) :: chain) (p_known p (blen P) known maxnum) (p_size p maxnum - 1) (xtp ++ xt) r' Hdom' Hinv' Hr) as [cF [kF [mF [xF [I1 I2]]]]].
@@ -1191,7 +1227,8 @@ Section Multi.
     window_ok parts file ->
     exists d t, load_ext dec can file = LOk d t /\ d_version d = a_version a /\
       (forall tp, In tp tops -> lookup (d_objects d) (fst (fst tp)) = Some (loaded_top tp)) /\
-      (forall id o, lookup (d_objects d) id = Some o -> (exists tp, In tp tops /\ fst (fst tp) = id) \/ In (fst id) xids).
+      (forall id o, lookup (d_objects d) id = Some o -> (exists tp, In tp tops /\ fst (fst tp) = id) \/ In (fst id) xids) /\
+      exists t0, d_trailer d = dict_swap_remove t0 K_Prev /\ trailer_src t0.
   Proof.
     intros Hu Hw Hlen Hdom H25 Hsx.
     destruct (ref_write_multi_shape parts file Hw) as [r [-> [Hr [Hne [Hj [Hv Hplaced]]]]]].
@@ -1210,7 +1247,7 @@ Section Multi.
       - destruct Hhdr as [b [r0 ->]]. unfold blen. cbn [length]. lia. }
     assert (HU : blen (hdr ++ r) <= u32_max) by (unfold blen in *; rewrite !app_length in *; lia).
     destruct (parts_inv parts hdr [] [] 0 [] r Hdom Hinv0 Hr HU) as [cF [kF [mF [xtF [IF HF]]]]].
-    destruct (HF Hne) as [xs [x0 [t0 [cr [lastp [front [E1 [E2 [E3 [E4 [E5 [E6 [E7 E8]]]]]]]]]]]]]. subst cF. clear HF.
+    destruct (HF Hne) as [xs [x0 [t0 [cr [lastp [front [E1 [E2 [E3 [E4 [E5 [E6 [E7 [E8 E9]]]]]]]]]]]]]]. subst cF. clear HF.
     pose proof (i_chain _ _ _ _ _ _ IF []) as Hc. rewrite app_nil_r in Hc. cbn [chain_ok] in Hc.
     destruct Hc as [Hc1 [Hc2 [Hc3 [Hc4 Hc5]]]].
     set (buf := hdr ++ r) in *.
@@ -1269,13 +1306,13 @@ Section Multi.
       + exact E8.
       + exact Hmax.
       + exact Hspec.
-    - cbn [d_version d_objects]. split; [reflexivity|].
+    - cbn [d_version d_objects d_trailer]. split; [reflexivity|].
       rewrite ostm_none. unfold merge_object_streams. cbn [fold_left]. rewrite zero_pass_id.
       2:{ intros id' q Hq. rewrite pos_none_fold in Hq by reflexivity. discriminate Hq. }
       set (M := fold_left (ins objfM) (x_entries xm) []).
       assert (Hlk : forall id, lookup M id = if hit (xget (x_entries xm)) (x_entries xm) id then Some (objfM (fst id) (snd id)) else None).
       { intro id. unfold M. rewrite (lookup_fold_ins objfM (xget (x_entries xm)) _ [] id); [reflexivity|exact Hxg]. }
-      split.
+      split; [|split; [|exists t0; split; [reflexivity|exact E9]]].
       + intros tp Htp. rewrite Hlk.
         assert (Hne' : fe ((xs, (x0, t0)) :: cr) (top_num tp) <> None) by (apply (i_all _ _ _ _ _ _ IF tp Htp); intros []).
         destruct (fe ((xs, (x0, t0)) :: cr) (top_num tp)) as [e|] eqn:Ee; [|contradiction].
